@@ -527,6 +527,9 @@ func (pe *PolicyEngine) deletePod(p *corev1.Pod) error {
 		pe.cache.deletePod(podObj, podName)
 		podToDelete = podObj
 	}
+	if podToDelete == nil { // deleting a pod which is not present is a no-op
+		return nil
+	}
 
 	delete(pe.podsMap, podName)
 	pe.updatePodOwnersToRepresentativePodMapIfRequired(podToDelete)
@@ -576,7 +579,7 @@ func (pe *PolicyEngine) deleteAdminNetworkPolicy(anp *apisv1a.AdminNetworkPolicy
 	delete(pe.adminNetpolsMap, anp.Name)
 	// delete anp from the pe.sortedAdminNetpols list
 	for i, item := range pe.sortedAdminNetpols {
-		if item == (*k8s.AdminNetworkPolicy)(anp) {
+		if item.Name == anp.Name { // admin-network-policies are identified by name (the given object may be a copy)
 			// assign to pe.sortedAdminNetpols all ANPs except for current item
 			pe.sortedAdminNetpols = append(pe.sortedAdminNetpols[:i], pe.sortedAdminNetpols[i+1:]...)
 			break
@@ -586,7 +589,7 @@ func (pe *PolicyEngine) deleteAdminNetworkPolicy(anp *apisv1a.AdminNetworkPolicy
 }
 
 func (pe *PolicyEngine) deleteBaselineAdminNetworkPolicy(banp *apisv1a.BaselineAdminNetworkPolicy) error {
-	if pe.baselineAdminNetpol.Name == banp.Name { // if this is the banp used in pe delete it
+	if pe.baselineAdminNetpol != nil && pe.baselineAdminNetpol.Name == banp.Name { // if this is the banp used in pe delete it
 		// @TBD : should keep this if? no other banps are in the resources (illegal)
 		pe.baselineAdminNetpol = nil
 	}
